@@ -84,6 +84,50 @@ func c18Gen(t *rapid.T) c18Case {
 		id := txt.Draw(t, "keyid")
 		lay.Keys[id] = hx.MKey{KeyID: id, Algs: []string{txt.Draw(t, "alg")}, KeyType: txt.Draw(t, "keytype"), Public: txt.Draw(t, "public"), Scheme: txt.Draw(t, "scheme")}
 	}
+	// twins: a token list that reads the same as an earlier one when its tokens are joined with blanks,
+	// but is split differently (["make", "{A}"] / ["make {A}"], [] / [""]) - each must come out as itself
+	if rapid.IntRange(0, 2).Draw(t, "twins") == 0 {
+		var lists [][]string
+		for _, st := range lay.Steps {
+			lists = append(lists, st.ExpCommand)
+			lists = append(lists, st.ExpMat...)
+			lists = append(lists, st.ExpProd...)
+		}
+		for _, in := range lay.Inspect {
+			lists = append(lists, in.Run)
+			lists = append(lists, in.ExpMat...)
+			lists = append(lists, in.ExpProd...)
+		}
+		var twin []string
+		var cands [][]string
+		for _, l := range lists {
+			if len(l) >= 2 {
+				cands = append(cands, l)
+			}
+		}
+		if len(cands) > 0 && rapid.IntRange(0, 3).Draw(t, "emptytwin") > 0 {
+			src := cands[rapid.IntRange(0, len(cands)-1).Draw(t, "twinof")]
+			at := rapid.IntRange(0, len(src)-2).Draw(t, "joinat")
+			twin = append(append(append([]string{}, src[:at]...), src[at]+" "+src[at+1]), src[at+2:]...)
+		} else {
+			twin = []string{""}
+			if len(lay.Steps) > 0 {
+				lay.Steps[0].ExpMat = append([][]string{{}}, lay.Steps[0].ExpMat...)
+			}
+		}
+		switch {
+		case len(lay.Inspect) > 0 && rapid.Bool().Draw(t, "twinininspection"):
+			i := len(lay.Inspect) - 1
+			if rapid.Bool().Draw(t, "twinasrun") {
+				lay.Inspect[i].Run = twin
+			} else {
+				lay.Inspect[i].ExpProd = append(lay.Inspect[i].ExpProd, twin)
+			}
+		case len(lay.Steps) > 0:
+			i := len(lay.Steps) - 1
+			lay.Steps[i].ExpProd = append(lay.Steps[i].ExpProd, twin)
+		}
+	}
 	c := c18Case{Layout: lay, Params: c18GenParams(t)}
 	if rapid.IntRange(0, 7).Draw(t, "e2e") == 0 {
 		w := c10GenChain(t)
